@@ -466,6 +466,10 @@ class Interp:
             setarg(0, M(m[1], umul(m[2], elem_unit(r)), m[3]) if m is not None and m[0] == 'M' and elem_unit(r) is not None else TOP)
         elif nm in ('col_norms', 'col_norms_sym', 'col_norms_no_reset', 'row_norms', 'col_sums', 'row_sums', 'col_norms_sym_no_reset', 'row_norms_no_reset') and len(args) == 2:
             setarg(1, V({self.fresh('norms'): Fraction(1)}))
+        elif nm == 'rectify_equilibration' and len(args) == 3:
+            # a heuristic correction factor (1 or mean(e)/e): dimensionless, so it is tracked as an opaque symbol --
+            # what matters is that the same factor reaches the data and the recorded scaling
+            setarg(1, V({self.fresh('rectify'): Fraction(1)}))
         elif nm in ('mul_assign', 'div_assign') and len(args) == 2:
             a, b = A(0), A(1)
             ua, ub = elem_unit(a), elem_unit(b)
